@@ -3,6 +3,8 @@
 
 package utils
 
+import "strings"
+
 func IsEscaped(input string, position int) bool {
 	escapeCounter := 0
 	for backtrackIndex := position - 1; backtrackIndex >= 0; backtrackIndex-- {
@@ -12,4 +14,11 @@ func IsEscaped(input string, position int) bool {
 		escapeCounter++
 	}
 	return escapeCounter%2 != 0
+}
+
+// EscapeGlob escapes the characters of a path that filepath.Glob would
+// otherwise interpret, so that the path can be used literally as the
+// directory part of a pattern.
+func EscapeGlob(path string) string {
+	return strings.NewReplacer(`\`, `\\`, `*`, `\*`, `?`, `\?`, `[`, `\[`).Replace(path)
 }
